@@ -64,6 +64,7 @@ structure Cmd where
   k : Int
   d : Int
   pick : Nat := 0          -- ghost: which candidate Go's map iteration meets first (default DNS target)
+  extra : Nat := 0         -- claimed: when ≠ 0 the body also carries every identity-like JSON key (`Gen.c11.identityKeys`) with this foreign value
 deriving DecidableEq, Repr
 
 /-- Repaired code vs. the code as found (five missing checks, see KNOWN_FINDINGS `fixed:` lines). -/
@@ -369,8 +370,8 @@ def addressed (c : Cmd) : Bool :=
   | _ => false
 
 /-- the same packet with the claimed fields blanked: `SenderId`, `ReceiverId`, `Token`, and the body's
-`target_client_id` unless the command is `addressed` -/
+`target_client_id` unless the command is `addressed`, and the extra identity-like keys smuggled into the body -/
 def Cmd.strip (c : Cmd) : Cmd :=
-  { c with snd := "0", rcv := "0", tok := "-", g := if addressed c then c.g else 0 }
+  { c with snd := "0", rcv := "0", tok := "-", g := if addressed c then c.g else 0, extra := 0 }
 
 end Tunnox.C11
